@@ -1,5 +1,6 @@
 import Driver.Common
 import Scion.Model.Scmp
+import Scion.Model.ScmpBytes
 /-! Driver for the slow-path / SCMP model (engine `scmp`, properties C08 and C09).
 Only parses, calls `Scion.Scmp` and prints. -/
 namespace Driver.Scmp
@@ -93,6 +94,50 @@ def handleSp (a : List String) : String :=
     | _, _, _, _, _, _, _, _, _ => "bad-op"
   | _ => "bad-op"
 
+def parseNats (s : String) : Option (List Nat) :=
+  if s == "-" then some [] else (s.splitOn ".").mapM (·.toNat?)
+
+def blankReply : Reply :=
+  { total := 0, hdrLenField := 0, payloadLen := 0, nextHdr := l4E2E, pathType := 1, flowID := 0, tc := 0,
+    dstIA := 0, srcIA := 0, dstType := 0, srcType := 0, rawDst := [], rawSrc := [], numINF := 0,
+    numHops := 0, pm := ⟨0, 0, 0, 0, 0⟩, infos := [], hops := [], scmpType := 0, scmpCode := 0, info := [],
+    auth := true, isError := true, quote := [], front := true, off := 0 }
+
+/-- `ck srcia dstia rawsrc rawdst type code info quote` → checksum of the SCMP message -/
+def handleCk : List String → String
+  | [srcia, dstia, rawsrc, rawdst, t, c, info, quote] =>
+    match srcia.toNat?, dstia.toNat?, unhex rawsrc, unhex rawdst, t.toNat?, c.toNat?, parseNats info,
+          unhex quote with
+    | some srcia, some dstia, some rawsrc, some rawdst, some t, some c, some info, some quote =>
+      let r := { blankReply with srcIA := srcia, dstIA := dstia, rawSrc := rawsrc, rawDst := rawdst,
+                                 scmpType := t, scmpCode := c, info := info, quote := quote }
+      match scmpChecksum r with
+      | .ok v => toString v
+      | .error _ => "err"
+    | _, _, _, _, _, _, _, _ => "bad-op"
+  | _ => "bad-op"
+
+/-- `au tc flow dstt srct dstia srcia rawdst rawsrc meta infos hops ts msg` → length and FNV-64 of
+the authenticator input -/
+def handleAu : List String → String
+  | [tc, flow, dstt, srct, dstia, srcia, rawdst, rawsrc, pmw, infos, hops, ts, msg] =>
+    match tc.toNat?, flow.toNat?, dstt.toNat?, srct.toNat?, dstia.toNat?, srcia.toNat?, unhex rawdst,
+          unhex rawsrc, pmw.toNat? with
+    | some tc, some flow, some dstt, some srct, some dstia, some srcia, some rawdst, some rawsrc,
+      some pmw =>
+      match parseInfos infos, unhex hops, ts.toNat?, unhex msg with
+      | some infos, some hops, some ts, some msg =>
+        let r := { blankReply with tc := tc, flowID := flow, dstType := dstt, srcType := srct,
+                                   dstIA := dstia, srcIA := srcia, rawDst := rawdst, rawSrc := rawsrc,
+                                   pm := decode pmw, infos := infos,
+                                   hops := chunks12 (hops.length + 1) hops }
+        match Scion.Spao.macInput (replyAuthIn r ts msg) with
+        | .ok inp => s!"{inp.length} {fnv64 inp}"
+        | .error _ => "err"
+      | _, _, _, _ => "bad-op"
+    | _, _, _, _, _, _, _, _, _ => "bad-op"
+  | _ => "bad-op"
+
 def parseCause (s : String) : Option Cause :=
   match s with
   | "pathExpired" => some .pathExpired
@@ -113,6 +158,8 @@ def parseCause (s : String) : Option Cause :=
 
 def handle : List String → String
   | "sp" :: rest => handleSp rest
+  | "ck" :: rest => handleCk rest
+  | "au" :: rest => handleAu rest
   | ["hs", t] => match t.toNat? with
     | some t => toString (scmpHeaderSize t)
     | none => "bad-op"
